@@ -152,8 +152,9 @@ theorem step_kfinv (B : KBlocks K V) (lt : K → K → Bool) (c c' : Config K V)
           · exact hw
           · exfalso
             cases k <;> first | exact hw | (simp [isDelK] at hdel)
-        obtain ⟨hpost, _⟩ := B.kd lt c.P t (stepSt c t th) k (stepHeld th) hdel hkp hpre hko hkpre hcov hk.ord hkpos
-        obtain ⟨hI, hst⟩ := B.id lt c.P t (stepSt c t th) k (stepHeld th) (othersWit c t) hdel hkp hpre hko hkpre hcov
+        have h4 : 4 ≤ (stepSt c t th).tree.order := hinv.four htm (by rw [hp]; exact hdel)
+        obtain ⟨hpost, _⟩ := B.kd lt c.P t (stepSt c t th) k (stepHeld th) hdel h4 hkp hpre hko hkpre hcov hk.ord hkpos
+        obtain ⟨hI, hst⟩ := B.id lt c.P t (stepSt c t th) k (stepHeld th) (othersWit c t) hdel h4 hkp hpre hko hkpre hcov
           hk.ord hkpos hwit hI0
         exact ⟨hpost.ord, hfin _ _ _ _ _ hpost.kpos, hst,
           hwfin _ _ _ _ _ (isepW_mono hI (fun _ _ hw => Or.inl hw))⟩
@@ -210,7 +211,8 @@ def SepTree (lt : K → K → Bool) (t : Tree K V) : Prop := ISepW lt (fun _ _ =
 
 theorem init_kfinv (lt : K → K → Bool) (P : Params K) (tree : Tree K V) (progs : List (List (COp K V)))
     (hkp : KParams lt P) (ht : TreeOk none tree) (hord : OrdTree lt tree) (hsep : SepTree lt tree)
-    (ho : tree.order = P.order) (hp : PadOk P) (hd : Disciplined progs) :
+    (ho : tree.order = P.order) (hp : PadOk P) (hd : Disciplined progs)
+    (hdel : 4 ≤ tree.order ∨ NoDelete progs) :
     KFInv lt (Config.init P tree progs) := by
   have hths : ∀ th ∈ (Config.init P tree progs).threads,
       ∃ p ∈ progs, th = { prog := p, pc := 0, park := .start, held := [], cursor := none, exhausted := false } := by
@@ -218,7 +220,7 @@ theorem init_kfinv (lt : K → K → Bool) (P : Params K) (tree : Tree K V) (pro
     simp only [Config.init, List.mem_map] at hth
     obtain ⟨p, hp, e⟩ := hth
     exact ⟨p, hp, e.symm⟩
-  refine ⟨init_cinv P tree progs ht ho hp hd, ⟨hord, ?_⟩, ?_, hkp⟩
+  refine ⟨init_cinv P tree progs ht ho hp hd hdel, ⟨hord, ?_⟩, ?_, hkp⟩
   · intro th hth
     obtain ⟨p, _, e⟩ := hths th hth
     rw [e]; trivial
@@ -229,9 +231,10 @@ theorem reachable_kfinv (B : KBlocks K V) (lt : K → K → Bool) (P : Params K)
     (progs : List (List (COp K V)))
     (hkp : KParams lt P) (ht : TreeOk none tree) (hord : OrdTree lt tree) (hsep : SepTree lt tree)
     (ho : tree.order = P.order) (hp : PadOk P) (hd : Disciplined progs)
+    (hdel : 4 ≤ tree.order ∨ NoDelete progs)
     (c : Config K V) (hr : Reachable (Config.init P tree progs) c) : KFInv lt c := by
   induction hr with
-  | refl => exact init_kfinv lt P tree progs hkp ht hord hsep ho hp hd
+  | refl => exact init_kfinv lt P tree progs hkp ht hord hsep ho hp hd hdel
   | @step c1 c2 t _ hs ih => exact step_kfinv B lt c1 c2 t hs ih
 
 /-- a fresh tree has no inner node: the separator invariant and the ordering hold trivially -/
